@@ -85,6 +85,22 @@ class DiagnosticStatusResponse(ModbusResponse):
     function_code = 0x08
     _rtu_frame_size = 8
 
+    @classmethod
+    def calculateRtuFrameSize(cls, buffer):
+        ''' Calculates the size of the message
+
+        Every diagnostic response carries one data word, except the
+        reply to the get statistics operation of sub function 21,
+        which carries a byte count and 54 words.
+
+        :param buffer: A buffer containing the data that have been received.
+        :returns: The number of bytes in the response.
+        '''
+        if len(buffer) >= 6 and struct.unpack('>HH', buffer[2:6]) == (
+                0x0015, ModbusPlusOperation.GetStatistics):
+            return cls._rtu_frame_size + 2 + 108
+        return cls._rtu_frame_size
+
     def __init__(self, **kwargs):
         '''
         Base initializer for a diagnostic response
